@@ -3,9 +3,82 @@
 use super::{nats, show_opt, slot, HResult, State};
 use roaring::RoaringBitmap;
 
+
+/// maximal runs of consecutive values of an ascending sequence
+fn runs_of<I: Iterator<Item = u64>>(it: I) -> Vec<(u64, u64)> {
+    let mut runs: Vec<(u64, u64)> = Vec::new();
+    for v in it {
+        match runs.last_mut() {
+            Some(r) if r.1.wrapping_add(1) == v && v != 0 => r.1 = v,
+            _ => runs.push((v, v)),
+        }
+    }
+    runs
+}
+
+/// the first three and the last three runs
+fn pick_runs(runs: &[(u64, u64)]) -> Vec<(u64, u64)> {
+    if runs.len() <= 6 {
+        runs.to_vec()
+    } else {
+        let mut v = runs[..3].to_vec();
+        v.extend_from_slice(&runs[runs.len() - 3..]);
+        v
+    }
+}
+
 pub fn handle(st: &mut State, toks: &[&str]) -> HResult {
     let ok = || Some("ok".to_string());
     match toks {
+        // structure-aware query battery: the queries are derived from the runs of the value itself (first and last
+        // three maximal runs): exactly the run, one more on either side, ranks / selects at the run's ends
+        ["probe", d] => {
+            use std::fmt::Write as _;
+            let b = st.bm[slot('b', d)?].as_ref()?;
+            let runs = runs_of(b.iter().map(u64::from));
+            let mut o = format!("runs={}", runs.len());
+            let m = u32::MAX as u64;
+            let sel = |n: u64| if n > m { "none".to_string() } else { show_opt(b.select(n as u32)) };
+            for (a, z) in pick_runs(&runs) {
+                let (a32, z32) = (a as u32, z as u32);
+                write!(o, " {}..{}:{}", a, z, b.contains_range(a32..=z32)).unwrap();
+                if z < m {
+                    write!(o, ",{},{}", b.contains_range(a32..=z32 + 1), b.contains(z32 + 1)).unwrap();
+                } else {
+                    o.push_str(",-,-");
+                }
+                if a > 0 {
+                    write!(o, ",{}", b.contains_range(a32 - 1..=z32)).unwrap();
+                } else {
+                    o.push_str(",-");
+                }
+                let (ra, rz) = (b.rank(a32), b.rank(z32));
+                write!(o, ",{},{},{},{},{},{}", b.range_cardinality(a32..=z32), ra, rz, sel(ra.wrapping_sub(1)), sel(rz.wrapping_sub(1)), sel(rz)).unwrap();
+            }
+            Some(o)
+        }
+        ["tprobe", d] => {
+            use std::fmt::Write as _;
+            let t = st.tm[slot('t', d)?].as_ref()?;
+            let runs = runs_of(t.iter());
+            let mut o = format!("runs={}", runs.len());
+            for (a, z) in pick_runs(&runs) {
+                write!(o, " {}..{}:{}", a, z, t.contains(a)).unwrap();
+                if z < u64::MAX {
+                    write!(o, ",{}", t.contains(z + 1)).unwrap();
+                } else {
+                    o.push_str(",-");
+                }
+                if a > 0 {
+                    write!(o, ",{},{}", t.contains(a - 1), t.rank(a - 1)).unwrap();
+                } else {
+                    o.push_str(",-,-");
+                }
+                let (ra, rz) = (t.rank(a), t.rank(z));
+                write!(o, ",{},{},{},{},{}", ra, rz, show_opt(t.select(ra.wrapping_sub(1))), show_opt(t.select(rz.wrapping_sub(1))), show_opt(t.select(rz))).unwrap();
+            }
+            Some(o)
+        }
         ["clone_from", d, s] => {
             let src = st.bm[slot('b', s)?].as_ref()?.clone();
             st.bm[slot('b', d)?].as_mut()?.clone_from(&src);
